@@ -154,13 +154,27 @@ func c17Blob(e *Env, data []byte, kind string) {
 	var matched bool
 	var err error
 	var out *commonpb.DataBlob
-	carrier := c17BlobCarrier % 3
+	carrier := c17BlobCarrier % 5
 	c17BlobCarrier++
 	switch carrier {
 	case 0:
 		resp := &adminservice.GetWorkflowExecutionRawHistoryV2Response{HistoryBatches: []*commonpb.DataBlob{in}}
 		matched, err = tr.TranslateResponse(resp)
 		out = resp.HistoryBatches[0]
+	case 3, 4:
+		// the blob among other, perfectly fine batches of the same list (first of two / in the middle of three): an error
+		// about one batch is an error about the message, wherever the batch stands
+		fine := func(id int64) *commonpb.DataBlob {
+			b, _ := evSerializer.SerializeEvents([]*historypb.HistoryEvent{plainPadEvent(id)})
+			return b
+		}
+		batches, pos := []*commonpb.DataBlob{in, fine(901)}, 0
+		if carrier == 4 {
+			batches, pos = []*commonpb.DataBlob{fine(900), in, fine(901)}, 1
+		}
+		resp := &adminservice.GetWorkflowExecutionRawHistoryV2Response{HistoryBatches: batches}
+		matched, err = tr.TranslateResponse(resp)
+		out = resp.HistoryBatches[pos]
 	default:
 		attrs := &replicationpb.HistoryTaskAttributes{NamespaceId: "ns-id", WorkflowId: "wf"}
 		if carrier == 1 {
